@@ -24,7 +24,7 @@ os.chdir(VERIF)
 from .core import HarnessError, Result, Violation  # noqa: E402
 
 KNOWN_FILE = os.path.join(VERIF, "KNOWN_FINDINGS.txt")
-MAX_BUCKETS = 5
+MAX_BUCKETS = int(os.environ.get("VERIF_MAX_BUCKETS", "5"))
 
 
 def _canon(case):
